@@ -89,6 +89,8 @@ PSI = 'py_stringsimjoin.index.position_index.PositionIndex.'
 PSF = 'py_stringsimjoin.filter.position_filter.PositionFilter.'
 POSITION_CORE = [PSI + '__init__', PSI + 'build', PSF + '__init__', PSF + 'find_candidates']
 POSITION_TABLES = ['py_stringsimjoin.filter.position_filter._filter_tables_split', PSF + 'filter_tables']
+POSITION_PAIR = [PSF + 'filter_pair']
+POSITION_PAIR_SAFE = [dict(fn=PSF + 'filter_pair', case=m_) for m_ in ('JACCARD', 'COSINE', 'DICE')]   # bounded half (C04)
 PREFIX_TABLES = ['py_stringsimjoin.filter.prefix_filter._filter_tables_split', PXF + 'filter_tables']
 PREFIX_PAIR = [TO_ + 'gen_token_ordering_for_lists', PXF + 'filter_pair']
 TO = 'py_stringsimjoin.utils.token_ordering.'
@@ -104,18 +106,18 @@ PROPS['C02'] = dict(functions=[SSJ] + HELPERS + JOINS + OVERLAP_CORE + OVERLAP_A
                     trusted=[PSM, PANDAS, LEMMA_INJ, LEMMA_CNT, JOBLIB])
 PROPS['C03'] = dict(functions=ED + PREFIX_CORE + ARITH[2:3] + HELPERS + ORDERING + PAR, trusted=[PSM, PANDAS, JOBLIB, LEMMA_ED])
 PROPS['C04'] = dict(functions=ARITH + SIZE_CORE + SIZE_API + OVERLAP_CORE + OVERLAP_API[:2] + CANDSET + PREFIX_CORE + PREFIX_TABLES +
-                    PREFIX_PAIR + POSITION_CORE + POSITION_TABLES + ORDERING + PAR,
-                    trusted=[PSM, PANDAS, LEMMA_CNT, LEMMA_INJ, LEMMA_PP, JOBLIB, ANYF])
+                    PREFIX_PAIR + POSITION_CORE + POSITION_TABLES + POSITION_PAIR + ORDERING + PAR,
+                    trusted=[PSM, PANDAS, LEMMA_CNT, LEMMA_INJ, LEMMA_PP, JOBLIB, ANYF], bounded_extra=POSITION_PAIR_SAFE)
 PROPS['C05'] = dict(functions=MATCHER + [GH + 'build_dict_from_table', GH + 'find_output_attribute_indices',
                                          GH + 'get_output_row_from_tables', GH + 'get_output_header_from_tables',
                                          GH + 'get_attrs_to_project', GH + 'remove_redundant_attrs'] + PAR,
                     trusted=[PANDAS, PSM, JOBLIB, GENTOK, SIMF])
-PROPS['C06'] = dict(functions=CANDSET + OVERLAP_CORE + OVERLAP_API[:2] + PAR + SIZE_API[:1] + PREFIX_PAIR[1:], trusted=[PSM, PANDAS, LEMMA_CNT, JOBLIB, ANYF])
-PROPS['C09'] = dict(functions=[SSJ] + JOINS + OVERLAP_CORE + OVERLAP_API[:1] + SIZE_CORE + SIZE_API + OVC + PREFIX_CORE[:2] + PREFIX_TABLES + PREFIX_PAIR[1:] +
+PROPS['C06'] = dict(functions=CANDSET + OVERLAP_CORE + OVERLAP_API[:2] + PAR + SIZE_API[:1] + PREFIX_PAIR[1:] + POSITION_PAIR, trusted=[PSM, PANDAS, LEMMA_CNT, JOBLIB, ANYF])
+PROPS['C09'] = dict(functions=[SSJ] + JOINS + OVERLAP_CORE + OVERLAP_API[:1] + SIZE_CORE + SIZE_API + OVC + PREFIX_CORE[:2] + PREFIX_TABLES + PREFIX_PAIR[1:] + POSITION_PAIR +
                     POSITION_CORE[:2] + POSITION_TABLES, trusted=[PSM, PANDAS, LEMMA_INJ, LEMMA_PP])
 PROPS['C11'] = dict(functions=HELPERS + [SSJ, MVH] + JOINS + OVERLAP_CORE[-1:] + OVERLAP_API[1:] + SIZE_CORE[-1:] + SIZE_API[1:] + OVC + ED +
                     PREFIX_TABLES + POSITION_TABLES, trusted=[PANDAS])
-PROPS['C08'] = dict(functions=[MVH] + HELPERS + JOINS + OVERLAP_API + SIZE_API + CANDSET + MATCHER + OVC[1:] + ED[1:] + PREFIX_PAIR[1:] +
+PROPS['C08'] = dict(functions=[MVH] + HELPERS + JOINS + OVERLAP_API + SIZE_API + CANDSET + MATCHER + OVC[1:] + ED[1:] + PREFIX_PAIR[1:] + POSITION_PAIR +
                     PREFIX_TABLES[1:] + POSITION_TABLES[1:], trusted=[PANDAS])
 # C10: n_jobs / chunking (split_table, chunk preconditions, concat, _id) and, for the stacks whose output is characterised
 # exactly as a function of the two rows of a pair, independence of row order and index labels
@@ -126,7 +128,7 @@ PROPS['C10'] = dict(functions=PAR + JOINS + OVERLAP_CORE + OVERLAP_API[1:] + SIZ
                                    dict(fn=TO + 'order_using_token_ordering', case='default')])
 PROPS['C12'] = dict(functions=JOINS + OVERLAP_API[1:] + SIZE_API[1:] + CANDSET[-1:] + MATCHER[-1:] + OVC[1:] + ED[1:] +
                     PREFIX_TABLES[1:] + POSITION_TABLES[1:], trusted=[PANDAS, PSM, JOBLIB])
-PROPS['C14'] = dict(functions=ARITH[:2] + SIZE_CORE + SIZE_API + OVERLAP_CORE + OVERLAP_API[:2] + PREFIX_CORE + PREFIX_TABLES + PREFIX_PAIR +
+PROPS['C14'] = dict(functions=ARITH[:2] + SIZE_CORE + SIZE_API + OVERLAP_CORE + OVERLAP_API[:2] + PREFIX_CORE + PREFIX_TABLES + PREFIX_PAIR + POSITION_PAIR +
                     POSITION_CORE + POSITION_TABLES + ORDERING,
                     trusted=[PSM, PANDAS, LEMMA_CNT, LEMMA_INJ, LEMMA_PP, JOBLIB],
                     bounded_extra=[dict(fn='spec.size_window_tightness', case=c_) for c_ in
